@@ -126,6 +126,17 @@ class OpaqueNN(Opaque):
     """An opaque value known not to be None."""
 
 
+class SetOf(Opaque):
+    """set(X) of a variable list X: only its size relative to X is ever asked (duplicate test)."""
+
+    __slots__ = ("vs", "text")
+
+    def __init__(self, vs: Any, text: str):
+        Opaque.__init__(self, "set")
+        self.vs = vs
+        self.text = text
+
+
 class NoneV:
     pass
 
@@ -750,6 +761,17 @@ class Interp:
                 if isinstance(op, ast.Eq):
                     return Cond(c_not(c))
             x = self.eval(ln.args[0], env)
+            # len(X) <op> len(S) where S was bound earlier to set(X)
+            if isinstance(x, VS) and isinstance(rn, ast.Call) and isinstance(rn.func, ast.Name) and rn.func.id == "len" and len(rn.args) == 1:
+                y = self.eval(rn.args[0], env)
+                if isinstance(y, SetOf) and (y.vs is x or y.text == norm(ln.args[0])):
+                    c = ("op", "has_duplicates(%s)" % y.text)
+                    if x.nodup:
+                        c = FALSE
+                    if isinstance(op, (ast.NotEq, ast.Gt)):
+                        return Cond(c)
+                    if isinstance(op, ast.Eq):
+                        return Cond(c_not(c))
             if isinstance(x, VS) and isinstance(rn, ast.Constant) and isinstance(rn.value, int):
                 k = rn.value
                 ex = ("E", x.tt)
@@ -860,6 +882,11 @@ class Interp:
                 return Cond(("op", "isinstance(%s)" % ", ".join(norm(a) for a in e.args)))
             if f.id == "len":
                 return Opaque("int")
+            if f.id == "set" and len(e.args) == 1:
+                v = self.eval(e.args[0], env)
+                if isinstance(v, VS):
+                    return SetOf(v, norm(e.args[0]))
+                return Opaque("set")
             if f.id in ("str", "int", "float", "repr", "format", "set", "tuple", "hash"):
                 return Opaque(f.id)
             if f.id == "list" and len(e.args) == 1:
